@@ -108,9 +108,17 @@ def twoBodyCMmom(m_0, m_1, m_2):
     return ret
 
 
+def _cast_const(x, dtype):
+    """cast keeping python numbers in full precision (tf.cast would first
+    turn a python float into a float32 tensor)"""
+    if isinstance(x, (int, float)):
+        return tf.constant(x, dtype=dtype)
+    return tf.cast(x, dtype)
+
+
 def hFun(s, daug2Mass, daug3Mass):
     _pi = 3.14159265359
-    _pi = tf.cast(_pi, s.dtype)
+    _pi = _cast_const(_pi, s.dtype)
 
     sm = daug2Mass + daug3Mass
     sqrt_s = tf.sqrt(s)
@@ -127,7 +135,7 @@ def hFun(s, daug2Mass, daug3Mass):
 
 def dh_dsFun(s, daug2Mass, daug3Mass):
     _pi = 3.14159265359
-    _pi = tf.cast(_pi, s.dtype)
+    _pi = _cast_const(_pi, s.dtype)
     k_s = twoBodyCMmom(tf.sqrt(s), daug2Mass, daug3Mass)
 
     ret = hFun(s, daug2Mass, daug3Mass) * (
@@ -139,7 +147,7 @@ def dh_dsFun(s, daug2Mass, daug3Mass):
 
 def dFun(s, daug2Mass, daug3Mass):
     _pi = 3.14159265359
-    _pi = tf.cast(_pi, s.dtype)
+    _pi = _cast_const(_pi, s.dtype)
     sm = daug2Mass + daug3Mass
     sm24 = sm * sm / 4.0
     m = tf.sqrt(s)
@@ -174,8 +182,8 @@ def fsFun(s, m2, gam, daug2Mass, daug3Mass):
 # Gounaris-Sakurai model for rho
 def GS(m, m0, g0, q, q0, L, d, c_daug2Mass=0.13957039, c_daug3Mass=0.1349768):
     gamma = Gamma(m, g0, q, q0, L, m0, d)
-    c_daug2Mass = tf.cast(c_daug2Mass, m.dtype)
-    c_daug3Mass = tf.cast(c_daug3Mass, m.dtype)
+    c_daug2Mass = _cast_const(c_daug2Mass, m.dtype)
+    c_daug3Mass = _cast_const(c_daug3Mass, m.dtype)
 
     D = 1.0 + dFun(m0 * m0, c_daug2Mass, c_daug3Mass) * g0 / m0
     E = m0 * m0 - m * m + fsFun(m * m, m0 * m0, g0, c_daug2Mass, c_daug3Mass)
